@@ -1,6 +1,6 @@
 /* Correspondence harness for stun/usages/timer.c: the clock is interposed (clock_gettime below),
  * so the real code sees exactly the instants of the test case.
- * line: <id> T N s0 u0 s1 u1 ...   output: <id> rem:ret:delay:retrans ...  */
+ * line: <id> T N|R s0 u0 s1 u1 ...   output: <id> rem:ret:delay:retrans ...  */
 #include <stdio.h>
 #include <stdlib.h>
 #include <string.h>
@@ -18,10 +18,11 @@ int main (void)
     if (!tok) continue;
     char id[64]; snprintf (id, sizeof id, "%s", tok);
     unsigned T = strtoul (strtok_r (NULL, " \n", &save), NULL, 10);
-    unsigned N = strtoul (strtok_r (NULL, " \n", &save), NULL, 10);
+    char *ntok = strtok_r (NULL, " \n", &save); int reliable = ntok[0] == 'R';   /* N = "R": stun_timer_start_reliable */
+    unsigned N = reliable ? 0 : strtoul (ntok, NULL, 10);
     cur_s = atoll (strtok_r (NULL, " \n", &save)); cur_us = atoll (strtok_r (NULL, " \n", &save));
     StunTimer t;
-    stun_timer_start (&t, T, N);
+    if (reliable) stun_timer_start_reliable (&t, T); else stun_timer_start (&t, T, N);
     printf ("%s", id);
     while ((tok = strtok_r (NULL, " \n", &save))) {
       cur_s = atoll (tok); cur_us = atoll (strtok_r (NULL, " \n", &save));
